@@ -144,6 +144,9 @@ func installInert(vm *ds.Context, mask int, cnt *c17Counts) {
 	}
 	if mask&xRegexNever != 0 {
 		reg(vm.RegCustomDice(`ZZZ_never_(\d+)`, handler))
+		// a pattern with a top-level alternation whose second branch occurs in the programs, but never at the start of an
+		// operand (only inside string literals, comments and in the middle of identifiers): a match must START at the operand
+		reg(vm.RegCustomDice(`ZZZ_never2_(\d+)|_zq(\d+)`, handler))
 	}
 	if mask&xStreamNil != 0 {
 		// looks at up to four characters (Peek + Read), never resets, reports "no match" with a nil result
